@@ -48,6 +48,7 @@ Definition run_base (tag : Z) (args : list sx) : option sx :=
   | 1 => Some (run_k1 args)
   | 2 => Some (run_k2 args)
   | 3 => Some (run_k3 args)
+  | 4 => Some (run_k4 args)
   | 8 => Some (run_k8 args)
   | _ => None
   end.
